@@ -7,4 +7,5 @@ package value
 
 //@ # The type of a value is a fixed, non-nil attribute of the value (vtype, specs/llvm_types.spec).
 //@ func iface Value.Type
+//@   assigns caches
 //@   ensures result == vtype(self) && result != nil
